@@ -61,6 +61,22 @@ S = [
     ("operators/for_over_mapped", "acc := {H:5}; s := mut 0; for v in [1, 2]~ @ (x: int) -> int { acc := x + 1; return acc } { s += v } (*s, acc)", (5, 5)),
     ("struct/field_names_are_not_variables", "a := {H:1}; s := struct{a := {H:5}, b := a}; (s.a, s.b, a)", (5, 1, 1)),
     ("tuple/destructure_scope", "a := {H:1}; r := { (a, b) := ({H:5}, {H:6}); a + b }; (a, r)", (1, 11)),
+    # the binder shadows a name of an ENCLOSING scope (not of the scope the construct itself sits in)
+    ("enclosing/ifset", "v := {H:9}; r := { q := if v: int = {H:1} { v + 1 } else { 0 }; (v, q) }; (v, r)", (9, (9, 2))),
+    ("enclosing/ifset_in_loop", "v := {H:9}; i := mut 0; s := mut 0; while *i < 2 { q := if v: int = {H:1} { v } else { 0 }; s += v + q; i += 1 } (v, *s)", (9, 20)),
+    ("enclosing/ifset_in_function", "v := {H:9}; f := (v: int) -> (int, int) { q := { if v: int = {H:1} { v } else { 0 } }; return (v, q) }; (v, f({H:4}))", (9, (4, 1))),
+    ("enclosing/match_binder", "v := {H:9}; r := { q := match {H:1} { v: int => v + 1, }; (v, q) }; (v, r)", (9, (9, 2))),
+    ("enclosing/for_variable", "v := {H:9}; r := { s := mut 0; for v in [1, 2]~ { s += v } (v, *s) }; (v, r)", (9, (9, 3))),
+    ("enclosing/whileset", "v := {H:9}; vals := [{H:4}, \"s\"]; r := { i := mut 0; s := mut 0; while v: int = vals[*i] { s += v; i += 1 } (v, *s) }; (v, r)", (9, (9, 4))),
+    ("enclosing/block_redeclare_then_read_outer", "v := {H:9}; r := { a := { v := {H:1}; v }; (v, a) }; (v, r)", (9, (9, 1))),
+    ("enclosing/loop_body_redeclare", "v := {H:9}; i := mut 0; t := mut 0; loop { t += v; v := v + 100; i += 1; if *i > 2 { break } } (v, *t)", (9, 27)),
+    ("enclosing/loop_closure_per_iteration", "v := {H:9}; fs := mut [() -> int { return 0 }; 0]; i := mut 0; loop { fs += [() -> int { return v }]; v := v + *i + 100; i += 1; if *i > 2 { break } } "
+     "g := *fs; (g[0](), g[1](), g[2](), v)", (9, 9, 9, 9)),
+    ("enclosing/while_true_body_redeclare", "v := {H:9}; i := mut 0; t := mut 0; while true { t += v; v := v + 100; i += 1; if *i > 2 { break } } (v, *t)", (9, 27)),
+    ("operators/type_filter_names", "default := {H:42}; iterator := {H:43}; r := [1, 2.5]~ ? int $]; (r, default, iterator)", ([1], 42, 43)),
+    ("operators/type_filter_names_as_parameters", "f := (default: int, iterator: int) -> any { r := [1, 2.5]~ ? int $]; return (r, default, iterator) }; f({H:42}, {H:43})", ([1], 42, 43)),
+    ("destructure/redeclare_constant", "a := {H:5}; (a, b) := ({H:10}, {H:20}); f := () -> int { return a + b }; (a, b, f())", (10, 20, 30)),
+    ("destructure/redeclare_in_block", "a := {H:5}; r := { (a, b) := ({H:10}, {H:20}); a + b }; (a, r)", (5, 30)),
     ("mod/members", "m := mod { x := {H:5}; y := x + 1 }; (m.x, m.y)", (5, 6)),
     ("mod/shadow", "x := {H:1}; m := mod { x := {H:5}; z := x * 2 }; (x, m.x, m.z)", (1, 5, 10)),
     ("mod/sees_outer", "k := {H:3}; m := mod { y := k + 1 }; (k, m.y)", (3, 4)),
